@@ -1213,7 +1213,7 @@ func (t *Term) Ref() string {
 		s := t.Val.Text(2)
 		return "#b" + strings.Repeat("0", t.W-len(s)) + s
 	case OpVar:
-		return smtName(t.Name)
+		return smtName("v:" + t.Name)
 	}
 	return fmt.Sprintf("t%d", t.ID)
 }
